@@ -1,5 +1,5 @@
 """C11: clone / export_leaf / independence of copies, on every tree of the generator."""
-import random, datetime as dt
+import zlib, random, datetime as dt
 from . import common as C
 from . import world as W
 odml = W.odml
@@ -100,7 +100,7 @@ def subtree(o):
 
 def replay(st):
     mk = mk_salted(salt_of(st), unnamed=True)
-    rng = random.Random(hash(repr(sorted(st["name"].items()))) & 0xffffff)
+    rng = random.Random(zlib.crc32(repr(sorted(st["name"].items())).encode()) & 0xffffff)
     live = [h for h, k in st["kind"].items() if k in ("doc", "sec", "prop")]
     for x in live:
         kind = st["kind"][x]
